@@ -20,6 +20,7 @@ import Nq.Lemmas.LocalDeliverMd
 import Nq.Lemmas.LocalDeliverMb
 import Nq.Lemmas.LocalDeliverMbox
 import Nq.Lemmas.LocalDeliverDate
+import Nq.Lemmas.MaildirSys
 
 namespace Nq.Props.C12
 open Nq Nq.LocalDeliver Nq.Mbox
@@ -439,6 +440,129 @@ theorem C12_mbox_rollback_needs_lock (s : Mb.St) (h : s.locked = false) : (Mb.fa
 
 end mbox
 
+/-! ## Session 4: crash relation by call index; many deliveries into one maildir; mbox end to end -/
+section session4
+open Nq.LocalDeliver.Md Nq.Lemmas.LD.Md
+
+/-- **The crash relation at EVERY call index, in terms of the trace.**  Stop a delivery after any number `k` of its
+events (process or machine crash; un-fsynced data arbitrary): the message is in new/ — complete, byte for byte — if a
+successful `link` is among the first `k` events, and new/ has nothing of this delivery otherwise.  In particular between
+`link` and `unlink(tmp)`, and between `unlink(tmp)` and `_exit`, the message is there. -/
+theorem C12_maildir_crash_every_index (p : Md.Params) (evs : List Md.Ev) (s : Md.St) (h : MdRun p evs s) (k : Nat)
+    (fs' : Md.FS) (hc : Md.CrashOf (Md.applyAll {} (evs.take k)) fs') :
+    (Md.Ev.link true ∈ evs.take k → fs'.newName = true ∧ fs'.cur = p.content) ∧
+    (Md.Ev.link true ∉ evs.take k → fs'.newName = false) := by
+  obtain ⟨sk, hk⟩ := C12_maildir_prefix_closed p evs s k h
+  have hn := applyAll_newName (evs.take k) {}
+  constructor
+  · intro hm
+    have hv : fs'.newName = true := by rw [hc.2.1, hn]; simp [hm]
+    exact ⟨hv, C12_maildir_atomic p (evs.take k) sk hk fs' hc hv⟩
+  · intro hm
+    rw [hc.2.1, hn]; simp [hm]
+
+/-- **Exactly once**: a run contains at most one successful `link` (so with `C12_maildir_crash_every_index`: the
+message is in new/ zero times before it and once after it, never twice). -/
+theorem C12_maildir_link_once (p : Md.Params) (evs : List Md.Ev) (s : Md.St) (h : MdRun p evs s) :
+    evs.count (Md.Ev.link true) ≤ 1 := link_once p evs.length evs rfl s h
+
+/-- **Inside the child after `link`, before `unlink(tmp)`**: in every crash state at that point the one file has both
+names, tmp/x (the leftover that a later clean-up removes) and new/x, and holds exactly the message. -/
+theorem C12_maildir_between_link_and_unlink (p : Md.Params) (evs : List Md.Ev) (s : Md.St)
+    (h : MdRun p (evs ++ [.link true]) s) (fs' : Md.FS) (hc : Md.CrashOf (Md.applyAll {} (evs ++ [.link true])) fs') :
+    fs'.newName = true ∧ fs'.tmpName = true ∧ fs'.cur = p.content := by
+  have hr := link_reach p evs s h
+  have hv : fs'.newName = true := by rw [hc.2.1, applyAll_newName]; simp
+  refine ⟨hv, ?_, C12_maildir_atomic p _ s h fs' hc hv⟩
+  rw [hc.1]
+  have := applyAll_snoc evs (.link true) {}
+  rw [this]
+  simp [Md.apply, hr.1]
+
+end session4
+
+section mdsys
+open Nq.LocalDeliver.MdSys Nq.Lemmas.LD.MdSys
+
+/-- a run of any number of maildir deliveries into one maildir, from a state in which none of them has started
+(tmp/ and new/ may hold anything: stale files, earlier messages) -/
+def MdSysRun (c : MdSys.Cfg) (y0 : MdSys.Sys) (tr : List MdSys.Ev) (y : MdSys.Sys) : Prop :=
+  (∀ i, y0.st i = {}) ∧ y0.log = [] ∧ y0.new.Nodup ∧ MdSys.run c y0 tr = some y
+
+/-- **Every delivery of the system is a run of the single-delivery acceptor**, whatever the others and the mail reader
+do in between: so `C12_maildir_atomic / success / failure / crash_every_index / link_once …` hold for each of them. -/
+theorem C12_mdsys_each_is_a_run (c : MdSys.Cfg) (y0 y : MdSys.Sys) (tr : List MdSys.Ev) (h : MdSysRun c y0 tr y) (i : Nat) :
+    MdRun (MdSys.params c i) (MdSys.proj i tr) (y.st i) := by
+  have := run_proj c i tr y0 y h.2.2.2
+  rw [h.1 i] at this
+  exact this
+
+/-- **new/ never holds a name twice**, at any instant of any interleaving, with a mail reader moving messages away
+(consequence of the `link` guard = link(2) fails on an existing name). -/
+theorem C12_mdsys_new_once (c : MdSys.Cfg) (y0 y : MdSys.Sys) (tr : List MdSys.Ev) (h : MdSysRun c y0 tr y) : y.new.Nodup :=
+  run_new_nodup c tr y0 y h.2.2.2 h.2.2.1
+
+/-- **No two deliveries ever link the same name while messages stay in new/**: if no reader removes anything, new/ is
+what was there before followed by the linked names in link order; they are pairwise different and different from every
+old name — for equal pids and equal seconds too. -/
+theorem C12_mdsys_link_exclusive (c : MdSys.Cfg) (y0 y : MdSys.Sys) (tr : List MdSys.Ev) (h : MdSysRun c y0 tr y)
+    (hm : ∀ e ∈ tr, MdSys.isMua e = false) :
+    y.new = y0.new ++ y.log.map (MdSys.logName c) ∧ (y.log.map (MdSys.logName c)).Nodup ∧
+    (∀ x ∈ y.log, MdSys.logName c x ∉ y0.new) := by
+  have h1 := run_new_log c tr y0 y h.2.2.2 hm y0.new (by simp [h.2.1])
+  have h2 := C12_mdsys_new_once c y0 y tr h
+  rw [h1] at h2
+  have h3 := List.nodup_append.mp h2
+  refine ⟨h1, h3.2.1, ?_⟩
+  intro x hx hin
+  exact h3.2.2 _ hin _ (List.mem_map.mpr ⟨x, hx, rfl⟩) rfl
+
+/-- **Concurrent deliveries use different names** (assumption, a guard of the model: `fork` returns a process id that no
+live child has): two deliveries whose children exist at the same instant have different pids, hence their names under
+tmp/ and new/ differ whatever the clock showed when each of them called `now()`. -/
+theorem C12_mdsys_concurrent_names (c : MdSys.Cfg) (y0 y : MdSys.Sys) (tr : List MdSys.Ev) (h : MdSysRun c y0 tr y)
+    (i j : Nat) (hij : i ≠ j) (hi : Md.inChild (y.st i).pc = true) (hj : Md.inChild (y.st j).pc = true) (t t' : Nat) :
+    c.pid i ≠ c.pid j ∧ maildirName t (c.pid i) c.host ≠ maildirName t' (c.pid j) c.host := by
+  have hl := run_live c tr y0 y h.2.2.2 (live_init c y0 (fun k => by rw [h.1 k]; rfl))
+  have hp := hl.2 i j hij hi hj
+  exact ⟨hp, fun he => hp (C12_maildir_names _ _ _ _ _ _ he).2⟩
+
+/-- **Restarts: the same name twice needs the same pid in the same second** (and a reader that took the first message
+away in between, by `C12_mdsys_link_exclusive`): two successful links of one name were made by children with the same
+process id that read the same second from the clock, and these two children never existed at the same time. -/
+theorem C12_mdsys_restart_names (c : MdSys.Cfg) (y0 y : MdSys.Sys) (tr : List MdSys.Ev) (h : MdSysRun c y0 tr y)
+    (x x' : Nat × Nat) (_hx : x ∈ y.log) (_hx' : x' ∈ y.log) (he : MdSys.logName c x = MdSys.logName c x') :
+    x.2 = x'.2 ∧ c.pid x.1 = c.pid x'.1 ∧
+    (x.1 ≠ x'.1 → ¬ (Md.inChild (y.st x.1).pc = true ∧ Md.inChild (y.st x'.1).pc = true)) := by
+  have hn := C12_maildir_names _ _ _ _ _ _ he
+  refine ⟨hn.1, hn.2, ?_⟩
+  intro hne ⟨h1, h2⟩
+  exact (C12_mdsys_concurrent_names c y0 y tr h x.1 x'.1 hne h1 h2 0 0).1 hn.2
+
+end mdsys
+
+section mboxread
+open Nq.LocalDeliver.Mb Nq.Lemmas.LD.Mb
+
+/-- **Mbox, end to end** (`C12_mbox_final` + `C12_mbox_roundtrip_many`): any number of concurrent deliveries, every
+interleaving in which no `flock`/`ftruncate` fails, old file ending at a line boundary; when all have exited, the
+documented reader returns the old messages unchanged followed by exactly the messages of the deliveries that exited 0 —
+each split and unquoted back to From_ line, Return-Path line + Delivered-To line + message — in lock order; the
+deliveries that failed contribute nothing. -/
+theorem C12_mbox_final_read (d : Nat → Delivery) (box : Bytes) (tr : List (Nat × Mb.Ev)) (y : Mb.Sys)
+    (h : MbRun (fun i => entryOf (d i)) box tr y) (hb : Benign tr)
+    (hdone : ∀ j, ∃ c, (y.st j).pc = .done c ∨ (y.st j).pc = .start) (hbox : AtBoundary box) :
+    mboxRead y.file = mboxRead box ++ y.order.map (fun i => readOf (d i)) ∧ AtBoundary y.file ∧
+    y.order.Nodup ∧ (∀ j, j ∈ y.order ↔ (y.st j).pc = .done 0) := by
+  obtain ⟨hf, hnd, hmem⟩ := C12_mbox_final _ box tr y h hb hdone
+  have hr := C12_mbox_roundtrip_many (y.order.map d) box hbox
+  simp only [List.map_map] at hr
+  have he : (y.order.map (entryOf ∘ d)) = y.order.map (fun i => entryOf (d i)) := rfl
+  rw [he, ← hf] at hr
+  exact ⟨hr.2, hr.1, hnd, hmem⟩
+
+end mboxread
+
 /-! ## Non-vacuity -/
 
 /-- a complete maildir delivery: name taken at the first try, two writes, one EINTR -/
@@ -508,5 +632,60 @@ example : (Mb.sysRun (fun _ => [70, 10, 82, 10, 10]) { file := [111, 10] }
 /-- names: 120.7.mx -/
 example : maildirName 120 7 [109, 120, 0, 33] = [49, 50, 48, 46, 55, 46, 109, 120] := by
   simp [maildirName, fmtDec, dig, digits, DOT]
+
+/-! ### Session 4 -/
+
+open Nq.Lemmas.LD.MdSys in
+/-- evaluation of a concrete system run (`fmtDec` is defined by well-founded recursion, which `decide` does not unfold) -/
+macro "mdsys_eval" : tactic => `(tactic|
+  simp [MdSys.run, MdSys.step, MdSys.nameOf, MdSys.params, MdSys.upd, Md.accept, maildirName, fmtDec_5, fmtDec_7, fmtDec_8, DOT, isPrefix])
+
+/-- `C12_maildir_between_link_and_unlink` / `crash_every_index`: the run stopped right after the `link` -/
+example : (Md.acceptAll { content := [82, 10] } {}
+    [.fork, .alarm 86400, .openExcl true false, .read 0, .write [82, 10], .fsync true, .close true, .link true]).map (·.pc)
+    = some .unlinkOk := by decide
+
+example : Md.applyAll {} [.fork, .alarm 86400, .openExcl true false, .read 0, .write [82, 10], .fsync true, .close true, .link true]
+    = { tmpName := true, newName := true, cur := [82, 10], synced := true } := by decide
+
+/-- a second `link` is not a run (`C12_maildir_link_once`) -/
+example : Md.acceptAll { content := [82, 10] } {}
+    [.fork, .alarm 86400, .openExcl true false, .read 0, .write [82, 10], .fsync true, .close true, .link true, .link true] = none := by decide
+
+/-- two deliveries, same second, different pids, interleaved: both link, two names in new/ -/
+example : ((MdSys.run { host := [104], pid := fun i => 7 + i, content := fun _ => [82, 10] } { clock := 5 }
+    [.proc 0 .fork, .proc 1 .fork, .proc 0 (.alarm 86400), .proc 1 (.alarm 86400), .proc 0 (.openExcl true false),
+     .proc 1 (.openExcl true false), .proc 0 (.read 0), .proc 0 (.write [82, 10]), .proc 1 (.read 0), .proc 1 (.write [82, 10]),
+     .proc 0 (.fsync true), .proc 1 (.fsync true), .proc 0 (.close true), .proc 1 (.close true), .proc 1 (.link true),
+     .proc 0 (.link true)]).map (fun y => (y.new, y.log))) = some ([[53, 46, 56, 46, 104], [53, 46, 55, 46, 104]], [(1, 5), (0, 5)]) := by
+  mdsys_eval
+
+/-- a restart with the same pid in the same second: the stale tmp/ name makes `open_excl` fail (EEXIST), the delivery
+sleeps 2 s and uses a later name -/
+example : ((MdSys.run { host := [104], pid := fun _ => 7, content := fun _ => [82, 10] } { clock := 5, tmp := [[53, 46, 55, 46, 104]] }
+    [.proc 0 .fork, .proc 0 (.alarm 86400), .proc 0 (.openExcl false true), .proc 0 (.sleep 2), .tick 2, .proc 0 (.alarm 86400),
+     .proc 0 (.openExcl true false)]).map (fun y => y.tmp)) = some [[55, 46, 55, 46, 104], [53, 46, 55, 46, 104]] := by mdsys_eval
+
+/-- … taking the existing tmp/ name, or linking onto an existing new/ name, is not a run of the system -/
+example : (MdSys.run { host := [104], pid := fun _ => 7, content := fun _ => [82, 10] } { clock := 5, tmp := [[53, 46, 55, 46, 104]] }
+    [.proc 0 .fork, .proc 0 (.alarm 86400), .proc 0 (.openExcl true false)]).isNone = true := by mdsys_eval
+
+example : (MdSys.run { host := [104], pid := fun _ => 7, content := fun _ => [82, 10] } { clock := 5, new := [[53, 46, 55, 46, 104]] }
+    [.proc 0 .fork, .proc 0 (.alarm 86400), .proc 0 (.openExcl true false), .proc 0 (.read 0), .proc 0 (.write [82, 10]),
+     .proc 0 (.fsync true), .proc 0 (.close true), .proc 0 (.link true)]).isNone = true := by mdsys_eval
+
+/-- the excluded case of `C12_mdsys_link_exclusive`, allowed by `C12_mdsys_restart_names`: a reader moved the first message
+away, the pid is reused within the same second — the same name is linked a second time (no message is lost) -/
+example : ((MdSys.run { host := [104], pid := fun _ => 7, content := fun _ => [82, 10] } { clock := 5 }
+    [.proc 0 .fork, .proc 0 (.alarm 86400), .proc 0 (.openExcl true false), .proc 0 (.read 0), .proc 0 (.write [82, 10]),
+     .proc 0 (.fsync true), .proc 0 (.close true), .proc 0 (.link true), .proc 0 (.unlinkTmp true), .proc 0 (.childExit 0),
+     .mua [53, 46, 55, 46, 104],
+     .proc 1 .fork, .proc 1 (.alarm 86400), .proc 1 (.openExcl true false), .proc 1 (.read 0), .proc 1 (.write [82, 10]),
+     .proc 1 (.fsync true), .proc 1 (.close true), .proc 1 (.link true)]).map (fun y => (y.new, y.log)))
+    = some ([[53, 46, 55, 46, 104]], [(0, 5), (1, 5)]) := by mdsys_eval
+
+/-- two live children with one pid: not a run (the operating-system assumption of `C12_mdsys_concurrent_names`) -/
+example : (MdSys.run { host := [104], pid := fun _ => 7, content := fun _ => [82, 10] } { clock := 5 }
+    [.proc 0 .fork, .proc 1 .fork]).isNone = true := by mdsys_eval
 
 end Nq.Props.C12
